@@ -232,6 +232,16 @@ REGISTRY = {
                      "symbolic powers in masks and non-rational functions of number operators are outside", "z3 `unsat` trusted; first query per job cross-checked by cvc5"],
         timeout_s={"quick": 400, "thorough": 1800},
     ),
+    "C19": dict(
+        jobs=lambda tier, seed: __import__("vf.props.indexing", fromlist=["x"]).configs(tier),
+        job_of_config=lambda cfg: ("vf.props.indexing", "c19_recursion" if cfg.get("recursion") else "c19_contract"),
+        technique="CrossHair (symbolic execution of Python with z3) on contracts over the real BlockSeries.__getitem__: the index expression (ints incl. negative finite indices, lists, forward slices, mixed; "
+        "1-2 infinite dimensions; scalar series; finite-only views) is built from symbolic small integers, the postcondition compares with numpy indexing of the dense table of element values with zero-masking, "
+        "checks at-most-once evaluation while cached and IndexError for infinite / negative orders; only `Confirmed over all paths` counts; self-reference => RuntimeError checked concretely",
+        bounds={"quick": "integers in boxes within [-3, 5] (see the pre-conditions in vf/ch/indexing.py), shapes (2,2)+1, (2,)+2, ()+1; 150 s per contract", "thorough": "same boxes, 900 s per contract"},
+        assumptions=["CrossHair realises integers at the numpy boundary, so each path is one concrete index expression; `Confirmed over all paths` = the whole box was covered", "element values are tagged integers; absent elements follow a fixed rule (sum of indices = 2 mod 3)"],
+        timeout_s={"quick": 400, "thorough": 1200},
+    ),
 }
 
 # Properties not (yet) claimed, each with the reason.  Entries disappear as checks are registered.
